@@ -43,6 +43,9 @@ Definition named_all (nl : nilmap) (f : Z -> bool) (xs : list (string * Z)) : bo
 (* the interval predicates: n is nil or a value *)
 Definition env_interval (n : option Z) : aenv :=
   [ ("n == nil", Some (is_none n));
+    (* the announced-size test (bounded exponent work) is outside the value model: a mathematical integer has no padding; it is
+       read as true for every value and exercised separately by the C05 padded-integer probe *)
+    ("hasBoundedAnnouncedLen(n)", onz n (fun _ => true));
     ("n.TrueLen() <= params.LPlusEpsilon", onz n (fun z => truelen z <=? go_param_LPlusEpsilon));
     ("n.TrueLen() <= params.LPrimePlusEpsilon", onz n (fun z => truelen z <=? go_param_LPrimePlusEpsilon));
     ("n.TrueLen() <= 1+params.LPlusEpsilon+(params.BitsIntModN/2)",
@@ -54,14 +57,17 @@ Definition env_interval (n : option Z) : aenv :=
 Definition env_plaintext (N n : option Z) : aenv :=
   [ ("N == nil", Some (is_none N));
     ("n == nil", Some (is_none n));
+    ("hasBoundedAnnouncedLen(n)", onz n (fun _ => true));
     ("n.TrueLen() > N.BitLen()", match N, n with Some N, Some z => Some (Cbor.bitlen N <? truelen z) | _, _ => None end);
     ("gt != 1", match N, n with Some N, Some z => Some (negb (N / 2 <? Z.abs z)) | _, _ => None end) ].
 
+(* the announced-size disjuncts of the two loops below (zero-padded encodings) are outside the value model: a mathematical
+   integer has no padding; they are read as false for every value and exercised by the C05 padded-integer probe *)
 (* the loop of IsValidNatModN, read as it was: some element is nil, not below N, or not a unit *)
 Definition nat_refused (N : Z) (i : option Z) : bool :=
   match i with None => true | Some x => negb (x <? N) || negb (gcd_mod N x =? 1) end.
 Definition env_natmodn (N : Z) (ints : list (option Z)) : aenv :=
-  [ ("any i in ints: i == nil || (lt != 1 where _, _, lt := i.CmpMod(N)) || i.IsUnit(N) != 1", Some (existsb (nat_refused N) ints)) ].
+  [ ("any i in ints: i == nil || i.AnnouncedLen() > maxAnnouncedBits || (lt != 1 where _, _, lt := i.CmpMod(N)) || i.IsUnit(N) != 1", Some (existsb (nat_refused N) ints)) ].
 (* saferith.Nat values are >= 0 by type *)
 Definition nats_nonneg (ints : list (option Z)) : bool := forallb (fun i => match i with Some x => 0 <=? x | None => true end) ints.
 
@@ -78,7 +84,7 @@ Definition env_bigmodn (N : Z) (ints : list (option Z)) : aenv :=
 Definition ct_refused (N : Z) (c : option Z) : bool :=
   match c with None => true | Some c => negb (c <? N * N) || negb (gcd_mod (N * N) c =? 1) end.
 Definition env_validate_cts (N : Z) (cts : list (option Z)) : aenv :=
-  [ ("any ct in cts: ct == nil || ct.c == nil || [_, _, lt := ct.c.CmpMod(pk.nSquared.Modulus)] lt != 1 || ct.c.IsUnit(pk.nSquared.Modulus) != 1",
+  [ ("any ct in cts: ct == nil || ct.c == nil || ct.c.AnnouncedLen() > 4*8*params.BytesCiphertext || [_, _, lt := ct.c.CmpMod(pk.nSquared.Modulus)] lt != 1 || ct.c.IsUnit(pk.nSquared.Modulus) != 1",
        Some (existsb (ct_refused N) cts)) ].
 
 (* ValidateN: step nBig := n.Big() *)
